@@ -92,6 +92,16 @@ fn lifecycle(p: &HashMap<String, String>) {
             "drop" => drop(subject),
             "verify" => subject.verify(),
             "noverify" => drop(subject.no_verify_in_drop()),
+            "noverify_clone_of_disabled" => {
+                // the subject has verification in drop disabled; a clone taken AFTERWARDS must still be refused
+                let subject = subject.no_verify_in_drop();
+                let c = subject.clone();
+                let r = catch_unwind(AssertUnwindSafe(move || drop(c.no_verify_in_drop())));
+                std::mem::forget(subject);
+                if let Err(e) = r {
+                    std::panic::resume_unwind(e);
+                }
+            }
             "report" => {
                 let code = std::process::Termination::report(subject);
                 let s = format!("{code:?}");
